@@ -131,27 +131,47 @@ structure St where
 /-- `disconnected_flow_variables.pop(name, None)` -/
 def popName (d : List String) (n : String) : List String := d.filter (· ≠ n)
 
+def popAll (d : List String) (ns : List String) : List String := ns.foldl popName d
+
+/-- Which flows a connect clause takes off the list of unconnected flows.
+    `byName` is the code as it stands: both flat names, whatever the face.
+    `byFace` is the code with `proposed_fixes/C09-1.diff`: a name is popped only when the clause
+    uses the inside face of the connector or the connector is a top-level one
+    (`CLASS_SEPARATOR not in equation.left.name`). -/
+inductive PopPolicy | byName | byFace
+  deriving DecidableEq, Repr
+
+/-- `CLASS_SEPARATOR not in equation.left.name` (identifiers contain no separator): the clause sits
+    in the top class and the reference has one part. -/
+def Edge.ltop (e : Edge) : Bool := e.pre.isEmpty && decide (e.l.length ≤ 1)
+def Edge.rtop (e : Edge) : Bool := e.pre.isEmpty && decide (e.r.length ≤ 1)
+
+def popsFor (pol : PopPolicy) (e : Edge) (ln rn : String) : List String :=
+  match pol with
+  | .byName => [ln, rn]
+  | .byFace => (if e.linner || e.ltop then [ln] else []) ++ (if e.rinner || e.rtop then [rn] else [])
+
 /-- One connector variable of one connect clause. -/
-def stepVar (e : Edge) (st : St) (v : CVar) : Except Err St :=
+def stepVar (pol : PopPolicy) (e : Edge) (st : St) (v : CVar) : Except Err St :=
   let ln := varName e.lname v.name
   let rn := varName e.rname v.name
   match classify v.prefixes with
   | .pot => .ok { st with eqs := st.eqs ++ [.pot ln rn] }
   | .flow => .ok { st with fc := connectStep st.fc (ln, e.linner) (rn, e.rinner),
-                           disc := popName (popName st.disc ln) rn }
+                           disc := popAll st.disc (popsFor pol e ln rn) }
   | .skip => .ok st
   | .bad => .error (.unsupportedPrefixes v.name v.prefixes)
 
-def stepVars (e : Edge) : St → List CVar → Except Err St
+def stepVars (pol : PopPolicy) (e : Edge) : St → List CVar → Except Err St
   | st, [] => .ok st
-  | st, v :: vs => match stepVar e st v with
-    | .ok st' => stepVars e st' vs
+  | st, v :: vs => match stepVar pol e st v with
+    | .ok st' => stepVars pol e st' vs
     | .error x => .error x
 
-def stepEdges : St → List Edge → Except Err St
+def stepEdges (pol : PopPolicy) : St → List Edge → Except Err St
   | st, [] => .ok st
-  | st, e :: es => match stepVars e st e.vars with
-    | .ok st' => stepEdges st' es
+  | st, e :: es => match stepVars pol e st e.vars with
+    | .ok st' => stepEdges pol st' es
     | .error x => .error x
 
 /-- The flow-sum equation of one connection set: no minus signs when every member is an
@@ -163,6 +183,7 @@ def sumEqn (s : List Key) : Eqn :=
 structure Input where
   flowSyms : List String
   edges : List Edge
+  policy : PopPolicy := .byName
   deriving Repr
 
 def St.init (inp : Input) : St := { eqs := [], fc := [], disc := inp.flowSyms }
@@ -173,13 +194,13 @@ def finish (st : St) : List Eqn :=
 
 /-- `expand_connectors`, restricted to what it derives from connect clauses. -/
 def expand (inp : Input) : Except Err (List Eqn) :=
-  match stepEdges (St.init inp) inp.edges with
+  match stepEdges inp.policy (St.init inp) inp.edges with
   | .ok st => .ok (finish st)
   | .error x => .error x
 
 /-- The connection sets at the end (for the driver). -/
 def finalSets (inp : Input) : Except Err (List (List Key)) :=
-  match stepEdges (St.init inp) inp.edges with
+  match stepEdges inp.policy (St.init inp) inp.edges with
   | .ok st => .ok (distinctSets st.fc)
   | .error x => .error x
 
